@@ -35,7 +35,7 @@ def run(ck, ctx):
         c06.r066(ck, prog, cfg, "R07.5")
 
 
-def certify(ck, rid=lambda r: r, floor_id="R07.0"):
+def certify(ck, rid=lambda r: r, floor_id="R07.0", skip_rules=()):
     """the merge-shape certificate; `rid` maps R07.x rule ids (C06 reports them under its own shared rule)"""
     tree = A.load(FILES)
     _TREE["t"] = tree
@@ -74,6 +74,8 @@ def certify(ck, rid=lambda r: r, floor_id="R07.0"):
         ck.ok(rid("R07.0"), "%s::%s:shape" % (owner, name), "term: %s" % term)
         certs[(owner, name)] = term
         for rule, key, msg, ln in issues:
+            if rule in skip_rules:
+                continue        # a clause (and its recorded finding) that belongs to the owning properties only
             ck.bad(rid(rule), "%s::%s:%s" % (owner, name, key), msg, "%s:%s" % (f["file"], ln or f["ln"]))
         for rule in ("R07.1", "R07.2"):
             if not any(r == rule for r, _, _, _ in issues):
